@@ -147,16 +147,27 @@ fn main() {
         }
         "replay-child" => {
             let id = args[2].clone();
-            let text = std::fs::read_to_string(&args[3]).unwrap_or_else(|e| {
+            let bytes = std::fs::read(&args[3]).unwrap_or_else(|e| {
                 eprintln!("cannot read {}: {}", args[3], e);
                 std::process::exit(2)
             });
-            let v: Value = serde_json::from_str(&text).unwrap_or_else(|e| {
-                eprintln!("replay file is not JSON: {}", e);
-                std::process::exit(2)
-            });
-            let case = v.get("case").cloned().unwrap_or(v.clone());
-            let res = on_big_stack(move || replay_dispatch(&id, &case));
+            let parsed: Option<Value> = std::str::from_utf8(&bytes).ok().and_then(|t| serde_json::from_str::<Value>(t).ok()).filter(|v| v.get("case").is_some());
+            let res = match parsed {
+                Some(v) => {
+                    let case = v.get("case").cloned().unwrap();
+                    on_big_stack(move || replay_dispatch(&id, &case))
+                }
+                None => {
+                    // a raw input of one of the fuzz targets
+                    println!("decoded fuzz input: {}", sdjwt_model::sut::clip(&sdjwt_model::ops_run::describe(&id, &bytes), 4000));
+                    on_big_stack(move || match id.as_str() {
+                        "C07" => Ok(sdjwt_model::ops_run::run_c07(&bytes)),
+                        "C08" => Ok(sdjwt_model::ops_run::run_c08(&bytes)),
+                        "C03" => Ok(sdjwt_model::ops_run::run_c03(&bytes)),
+                        _ => Err("this property has no fuzz-input decoder; the replay file must be a JSON case file".to_string()),
+                    })
+                }
+            };
             match res {
                 Ok(Ok(())) => std::process::exit(0),
                 Ok(Err(f)) => {
